@@ -128,6 +128,26 @@ def step (net : Net) (ws : List String) : Net × String :=
   if ws.head? = some "crash" then (net, "ok") else   -- harness bookkeeping only (node stops acting)
   if ws.head? = some "converged" then
     (net, "conv " ++ boolStr (converged net (parseIdList (ws.getD 1 "-")))) else
+  if ws.head? = some "deliverw" then
+    -- `deliverw i cut p dcut k v`: the replies are computed, then the node writes k=v locally, then
+    -- the replies are encoded: what was computed is a snapshot, so this is deliver followed by upsert
+    match ws with
+    | [_, i, cut, p, dcut, k, v] =>
+      match parseOp ["deliver", i, cut, p, dcut] with
+      | some (op, _) =>
+        let r := net.step op
+        match r.err with
+        | some e => (r.net, "err " ++ e)
+        | none =>
+          let r2 := r.net.step (.upsert r.who (hx k) (hx v))
+          let st := match r2.net.nodes.find r.who with
+            | some s => showState s
+            | none => "?"
+          (r2.net, "deliverw " ++ hexEnc r.who ++ " st=" ++ st ++ " ev=" ++ showEvents false r.events ++
+            " out=[" ++ joinWith " " (r.sent.map showPacket) ++ "]")
+      | none => (net, "bad-op")
+    | _ => (net, "bad-op")
+  else
   if ws.head? = some "pexpire" then
     -- `pexpire n d src`: the expiry sweep at `n` and a digest of `src` arriving concurrently.  The
     -- sweep and its notifications are one atomic step, so this is: sweep, then the digest.
